@@ -1,6 +1,8 @@
 import FlVerif.Spec.Defuzz
 import FlVerif.Op.Integral
 import FlVerif.Lemmas.Integral
+import FlVerif.Lemmas.CodeIntegral
+import FlVerif.Lemmas.CodeIntegralMembership
 
 /-! # C09 — Integral defuzzifiers return the defined point of the sampled fuzzy set
 
@@ -271,6 +273,133 @@ theorem batch_rows (D : List (X α) → List (X α) → X α) (agg : X α → X 
   apply List.map_congr_left
   intro b _
   simp only [Function.comp, List.foldl_map]
+
+/-! ## the array code of the source is the model (Tie A for algorithms, DESIGN.md section 0.7)
+
+`Gen.Code.*` (`Gen/CodeIntegral.lean`) is regenerated from the sources of `Op.midpoints`, the five `defuzzify` methods,
+`Activated.membership` and `Aggregated.membership` on every run (`fv/pylean.py`); every NumPy call is an external of
+`Op/PyExtIntegral.lean` (`Py.Np`: a 2-D array is the list of its rows, broadcasting stretches an axis of length 1 and is
+a `ValueError` otherwise).  In the five defuzzifier theorems `mem` is `term.membership` - *any* function that returns a
+NumPy value or raises; `Py.Np.memShape r Y` says that its result, seen through `np.atleast_2d`, has one column per
+sample point or a single column (what the code relies on when it multiplies by `x`).  The result is the model's row
+function on every row of the batch (`defuzzifyBatch`), squeezed. -/
+
+/-- **Tie A (code → model).**  `Op.midpoints` returns the model's list; resolution 0 is Python's `ZeroDivisionError`
+    (`float / int`; the model has the empty list there - no defuzzifier is constructed with resolution 0). -/
+theorem code_midpoints (lo hi : X ℚ) (r : Nat) :
+    Gen.Code.Op_midpoints.run lo hi r {} =
+      if r = 0 then .error .internal else .ok { ret := some (Op.Integral.midpoints lo hi r) } :=
+  Op.Integral.code_midpoints lo hi r
+
+/-- **Tie A (code → model).**  `Centroid.defuzzify`: the exception of `term.membership` is passed on; otherwise the
+    result is `Op.Integral.centroid` on every row. -/
+theorem code_centroid (mem : Py.Np.Mat → Py.M Py.Np.Nd) (lo hi : X ℚ) (r : Nat) :
+    if r = 0 then Gen.Code.Centroid_defuzzify.run mem lo hi r {} = .error .internal else
+    match mem [Op.Integral.midpoints lo hi r] with
+    | .error e => Gen.Code.Centroid_defuzzify.run mem lo hi r {} = .error e
+    | .ok y0 => Py.Np.memShape r (Py.Np.atleast2d y0) = true →
+        ∃ σ, Gen.Code.Centroid_defuzzify.run mem lo hi r {} = .ok σ ∧
+          σ.ret = some (Py.Np.squeeze1 (Op.Integral.defuzzifyBatch Op.Integral.centroid
+            (Op.Integral.midpoints lo hi r) (Py.Np.atleast2d y0))) :=
+  Op.Integral.code_centroid mem lo hi r
+
+/-- **Tie A (code → model).**  `Bisector.defuzzify` is `Op.Integral.bisector` on every row. -/
+theorem code_bisector (mem : Py.Np.Mat → Py.M Py.Np.Nd) (lo hi : X ℚ) (r : Nat) :
+    if r = 0 then Gen.Code.Bisector_defuzzify.run mem lo hi r {} = .error .internal else
+    match mem [Op.Integral.midpoints lo hi r] with
+    | .error e => Gen.Code.Bisector_defuzzify.run mem lo hi r {} = .error e
+    | .ok y0 => Py.Np.memShape r (Py.Np.atleast2d y0) = true →
+        ∃ σ, Gen.Code.Bisector_defuzzify.run mem lo hi r {} = .ok σ ∧
+          σ.ret = some (Py.Np.squeeze1 (Op.Integral.defuzzifyBatch Op.Integral.bisector
+            (Op.Integral.midpoints lo hi r) (Py.Np.atleast2d y0))) :=
+  Op.Integral.code_bisector mem lo hi r
+
+/-- **Tie A (code → model).**  `SmallestOfMaximum.defuzzify` is `Op.Integral.som` on every row. -/
+theorem code_som (mem : Py.Np.Mat → Py.M Py.Np.Nd) (lo hi : X ℚ) (r : Nat) :
+    if r = 0 then Gen.Code.SmallestOfMaximum_defuzzify.run mem lo hi r {} = .error .internal else
+    match mem [Op.Integral.midpoints lo hi r] with
+    | .error e => Gen.Code.SmallestOfMaximum_defuzzify.run mem lo hi r {} = .error e
+    | .ok y0 => Py.Np.memShape r (Py.Np.atleast2d y0) = true →
+        ∃ σ, Gen.Code.SmallestOfMaximum_defuzzify.run mem lo hi r {} = .ok σ ∧
+          σ.ret = some (Py.Np.squeeze1 (Op.Integral.defuzzifyBatch Op.Integral.som
+            (Op.Integral.midpoints lo hi r) (Py.Np.atleast2d y0))) :=
+  Op.Integral.code_som mem lo hi r
+
+/-- **Tie A (code → model).**  `MeanOfMaximum.defuzzify` is `Op.Integral.mom` on every row. -/
+theorem code_mom (mem : Py.Np.Mat → Py.M Py.Np.Nd) (lo hi : X ℚ) (r : Nat) :
+    if r = 0 then Gen.Code.MeanOfMaximum_defuzzify.run mem lo hi r {} = .error .internal else
+    match mem [Op.Integral.midpoints lo hi r] with
+    | .error e => Gen.Code.MeanOfMaximum_defuzzify.run mem lo hi r {} = .error e
+    | .ok y0 => Py.Np.memShape r (Py.Np.atleast2d y0) = true →
+        ∃ σ, Gen.Code.MeanOfMaximum_defuzzify.run mem lo hi r {} = .ok σ ∧
+          σ.ret = some (Py.Np.squeeze1 (Op.Integral.defuzzifyBatch Op.Integral.mom
+            (Op.Integral.midpoints lo hi r) (Py.Np.atleast2d y0))) :=
+  Op.Integral.code_mom mem lo hi r
+
+/-- **Tie A (code → model).**  `LargestOfMaximum.defuzzify` is `Op.Integral.lom` on every row. -/
+theorem code_lom (mem : Py.Np.Mat → Py.M Py.Np.Nd) (lo hi : X ℚ) (r : Nat) :
+    if r = 0 then Gen.Code.LargestOfMaximum_defuzzify.run mem lo hi r {} = .error .internal else
+    match mem [Op.Integral.midpoints lo hi r] with
+    | .error e => Gen.Code.LargestOfMaximum_defuzzify.run mem lo hi r {} = .error e
+    | .ok y0 => Py.Np.memShape r (Py.Np.atleast2d y0) = true →
+        ∃ σ, Gen.Code.LargestOfMaximum_defuzzify.run mem lo hi r {} = .ok σ ∧
+          σ.ret = some (Py.Np.squeeze1 (Op.Integral.defuzzifyBatch Op.Integral.lom
+            (Op.Integral.midpoints lo hi r) (Py.Np.atleast2d y0))) :=
+  Op.Integral.code_lom mem lo hi r
+
+/-- **Tie A (code → model).**  `Activated.membership` on the row of sample points (`x = [xr]`, shape `(1, n)`):
+    `ValueError` without implication operator; otherwise the model's matrix `activatedMat` with one row per degree
+    (`degrees`: the degrees given to the constructor, stored through `nan_to_num`) - returned as a matrix for a
+    batch of degrees, squeezed otherwise. -/
+theorem code_activatedMembership (mu : X ℚ → X ℚ) (degrees : List (X ℚ)) (impl : Option (X ℚ → X ℚ → X ℚ))
+    (xr : List (X ℚ)) :
+    match impl with
+    | none => Gen.Code.Activated_membership.run mu degrees none [xr] {} = .error .value
+    | some f => ∃ σ, Gen.Code.Activated_membership.run mu degrees (some f) [xr] {} = .ok σ ∧
+        σ.ret = some (if 1 < degrees.length then .mat (Op.Integral.activatedMat ⟨mu, degrees, f⟩ degrees.length xr)
+                      else Py.Np.squeeze2 (Op.Integral.activatedMat ⟨mu, degrees, f⟩ degrees.length xr)) :=
+  Op.Integral.code_activatedMembership mu degrees impl xr
+
+/-- **Tie A (code → model).**  `Aggregated.membership` on the row of sample points: `ValueError` when terms lack
+    the aggregation operator or a term lacks its implication operator; otherwise the value, seen through
+    `np.atleast_2d` as the defuzzifiers see it, is the model's matrix `aggregatedMat` (`[[0.0]]` without terms).
+    `B` is the batch size: every term has one degree or `B` degrees, and `B = 1` unless some term has `B` degrees.
+    (`Activated.membership` enters as the value `code_activatedMembership` gives it: `Py.Np.activatedMembership`.) -/
+theorem code_aggregatedMembership (agg : Option (X ℚ → X ℚ → X ℚ)) (terms : List Py.Np.Act) (xr : List (X ℚ))
+    (B : Nat) :
+    match agg with
+    | none =>
+      if terms.isEmpty then
+        ∃ σ, Gen.Code.Aggregated_membership.run none terms xr {} = .ok σ ∧ σ.ret = some (.scalar (.fin 0))
+      else Gen.Code.Aggregated_membership.run none terms xr {} = .error .value
+    | some g =>
+      if terms.all (fun a => a.impl.isSome) then
+        1 ≤ B → (∀ a ∈ terms, a.degrees.length = 1 ∨ a.degrees.length = B) →
+        (B = 1 ∨ ∃ a ∈ terms, a.degrees.length = B) →
+        ∃ σ v, Gen.Code.Aggregated_membership.run (some g) terms xr {} = .ok σ ∧ σ.ret = some v ∧
+          Py.Np.atleast2d v = Op.Integral.aggregatedMat g (terms.map Py.Np.Act.model) B xr
+      else Gen.Code.Aggregated_membership.run (some g) terms xr {} = .error .value :=
+  Op.Integral.code_aggregatedMembership agg terms xr B
+
+/-- the value `Aggregated.membership` uses for `term.membership(x)` is what the translated `Activated.membership`
+    returns (or the exception it raises) -/
+theorem code_activatedMembership_callee (a : Py.Np.Act) (xr : List (X ℚ)) :
+    match Py.Np.activatedMembership a xr with
+    | .error e => Gen.Code.Activated_membership.run a.mu a.degrees a.impl [xr] {} = .error e
+    | .ok v => ∃ σ, Gen.Code.Activated_membership.run a.mu a.degrees a.impl [xr] {} = .ok σ ∧ σ.ret = some v :=
+  Op.Integral.code_activatedMembership_callee a xr
+
+/-- the list `Op.midpoints` the defuzzifiers call is what the translated `Op.midpoints` returns -/
+theorem code_midpoints_callee (lo hi : X ℚ) (r : Nat) :
+    Gen.Code.Op_midpoints.run lo hi r {} = (Py.Np.midpoints lo hi r >>= fun v => .ok { ret := some v }) :=
+  Op.Integral.code_midpoints_callee lo hi r
+
+/-- the shape hypothesis of the defuzzifier ties holds for what `Aggregated.membership` returns: the model's matrix
+    has one column per sample point (a single column without terms) -/
+theorem aggregatedMat_shape (g : X ℚ → X ℚ → X ℚ) (acts : List (Op.Integral.Activated ℚ)) (B : Nat)
+    (xr : List (X ℚ)) :
+    Py.Np.memShape xr.length (Op.Integral.aggregatedMat g acts B xr) = true :=
+  Op.Integral.aggregatedMat_shape g acts B xr
 
 /-! ## non-vacuity -/
 
